@@ -244,6 +244,37 @@ func genConfig(o *out) {
 		thr = "0"
 	}
 	o.def("paired_threshold", "N", thr)
+
+	// ip_transport.go: NewIPTransport, the order in which the stored configuration is read, the id is written, the device
+	// (its entity) is created and the configuration is saved
+	var steps []string
+	if fd := findFunc(tf, "NewIPTransport"); fd != nil {
+		ast.Inspect(fd.Body, func(n ast.Node) bool {
+			ce, ok := n.(*ast.CallExpr)
+			if !ok {
+				return true
+			}
+			switch exprString(ce.Fun) {
+			case "cfg.load":
+				steps = append(steps, "load")
+			case "cfg.save":
+				steps = append(steps, "save")
+			case "hap.NewSecuredDevice":
+				steps = append(steps, "device")
+			case "storage.Set":
+				if len(ce.Args) > 0 {
+					if bl, ok := ce.Args[0].(*ast.BasicLit); ok && bl.Value == `"uuid"` {
+						steps = append(steps, "uuid")
+					}
+				}
+			}
+			return true
+		})
+	}
+	if len(steps) == 0 {
+		complain("ip_transport.go:NewIPTransport: no cfg.load / hap.NewSecuredDevice / cfg.save calls found")
+	}
+	o.def("transport_start_steps", "list (list N)", coqByteLists(steps))
 }
 
 func stmtString(s ast.Stmt) string {
